@@ -221,6 +221,44 @@ func (w *Writer) verifControlRefGood(m *modeling.Mesh) int {
 	return idx
 }
 
+// ---- DEDUP-2
+
+func (w *Writer) verifControlSentinelBad(model PolyformModel) int {
+	var mi *int
+	if model.Material != nil {
+		mi, _ = w.AddMaterial(model.Material)
+	}
+	key := meshEntry{polyMesh: model.Mesh} // "no material" = zero value = material 0
+	if mi != nil {
+		key.materialIndex = *mi
+	}
+	if i, ok := w.meshIndices[key]; ok {
+		return i
+	}
+	idx := len(w.meshes)
+	w.meshIndices[key] = idx
+	w.meshes = append(w.meshes, Mesh{})
+	return idx
+}
+
+func (w *Writer) verifControlSentinelGood(model PolyformModel) int {
+	var mi *int
+	if model.Material != nil {
+		mi, _ = w.AddMaterial(model.Material)
+	}
+	key := meshEntry{polyMesh: model.Mesh, materialIndex: -1}
+	if mi != nil {
+		key.materialIndex = *mi
+	}
+	if i, ok := w.meshIndices[key]; ok {
+		return i
+	}
+	idx := len(w.meshes)
+	w.meshIndices[key] = idx
+	w.meshes = append(w.meshes, Mesh{Primitives: []Primitive{{Material: mi}}})
+	return idx
+}
+
 // ---- SINK-1 / BUF-1
 
 func verifControlSinkBad() *Writer {
@@ -323,6 +361,8 @@ var ctlCases = []ctlCase{
 	{"REF-1", "verifControlRefBad", ob.Violation},
 	{"DEDUP-1", "verifControlRefGood", ob.Holds},
 	{"REF-1", "verifControlRefGood", ob.Holds},
+	{"DEDUP-2", "verifControlSentinelBad", ob.Violation},
+	{"DEDUP-2", "verifControlSentinelGood", ob.Holds},
 	{"SINK-1", "verifControlSinkBad", ob.Violation},
 	{"SINK-1", "verifControlSinkGood", ob.Holds},
 	{"BUF-1", "verifControlBufBad", ob.Violation},
